@@ -10,7 +10,7 @@
  *                 0 nothing (the rule does not look at the value), 1 local failure, 2 parse_error
  *   C15_CONV_A    1: in apply_mode::action the state receives the value
  *   C15_PREFIX    optional: concrete digit string placed at the front (after the sign position when C15_SIGNED): boundary
- *                 neighbourhoods of wide types; the start offset is 0 then
+ *                 neighbourhoods of wide types; the start offset is 0 then;  C15_FIXN  optional: concrete buffer length
  *   C15_WIDE      1: numeral values need more than 64 bit in the specification (NA > 19)
  */
 #ifndef C15_RULES_H
@@ -32,7 +32,12 @@ typedef u64 c15_val;
  * violation / ASan error.  Only in the differential (random) runs one readable non-digit pad byte follows, so that a scan running
  * over the end does not abort the whole differential run (CBMC and the replay still report it). */
 static void c15_setup(void) {
+#ifdef C15_FIXN
+  lf_n = IN(C15_FIXN, C15_FIXN);
+  lf_n = C15_FIXN;   /* a constant for the symbolic execution (boundary neighbourhoods run once per buffer length) */
+#else
   lf_n = IN(C15_MINN, NA);
+#endif
   u64 slack = 0;
 #if defined(VF_NATIVE)
   slack = (vf_mode == 0);
@@ -129,7 +134,9 @@ static void harness(void) {
 #endif
   REACH(c15_er == 1 && c15_end - lf_start >= C15_REACH_LEN, "long numeral accepted");
   REACH(c15_er == 1 && c15_end < lf_n, "numeral followed by a trailing byte");
+#if C15_REACH_EOF
   REACH(c15_er == 1 && c15_end == lf_n, "numeral at the end of the input");
+#endif
 #if C15_SIGNED
   REACH(c15_er == 1 && c15_neg, "negative numeral accepted");
 #endif
